@@ -159,6 +159,22 @@ def wrappers_scenario():
         h3.close()
         rec('... and stores them', [2 ** 18, 5] * 4,
             [x for i in range(4) for sh in [diskcache.Cache(os.path.join(hdir, '%03d' % i))] for x in (int(sh.size_limit), sh.cull_limit)])
+        # routing follows the STORED disk settings: created with pickle protocol 2 (JSONDisk: compression 6), opened again
+        # without them, every key is found where it was put and stored again over itself
+        pkeys = [(1, 2), None, True, 2 ** 70, ('a', (2.5, None)), frozenset([3]), 'text', 7, b'raw']
+        for tag_, cls_, kw_ in (('pickle protocol 2', diskcache.Disk, {'disk_pickle_protocol': 2}), ('JSONDisk level 6', diskcache.JSONDisk, {'disk_compress_level': 6})):
+            rdir = os.path.join(root, 'r' + tag_[:1])
+            ks = [k for k in pkeys if cls_ is diskcache.Disk or not isinstance(k, (tuple, frozenset, bytes))] + ([['l', 1], {'m': [1]}] if cls_ is diskcache.JSONDisk else [])
+            r1 = diskcache.FanoutCache(rdir, shards=5, disk=cls_, **kw_)
+            for i_, k in enumerate(ks):
+                r1.set(k, i_)
+            r1.close()
+            r2 = diskcache.FanoutCache(rdir, shards=5, disk=cls_)
+            rec('FanoutCache (%s) reopened without the disk setting finds every key' % tag_, list(range(len(ks))), [r2.get(k) for k in ks])
+            for i_, k in enumerate(ks):
+                r2.set(k, i_)
+            rec('... and stores over them', len(ks), len(r2))
+            r2.close()
         dj = DjangoCache(os.path.join(root, 'dj'), {'SHARDS': 4, 'DATABASE_TIMEOUT': 0.5, 'OPTIONS': {'size_limit': 2 ** 22, 'cull_limit': 7}})
         dj.set('k', 1)
         rec('DjangoCache SHARDS: shard directories', 4, len([n for n in os.listdir(dj.directory) if n.isdigit()]))
